@@ -64,7 +64,7 @@ def _history(rng, regime):
         elif x < 0.78:
             ops.append(["update", r, rng.randrange(NREG)])
         elif x < 0.90:
-            n = rng.randrange(1, 4)
+            n = rng.randrange(0, 4)          # 0: an empty mapping renames nothing
             src = rng.sample(labels + ["zz"], min(n, len(labels) + 1))
             ops.append(["rename", r, [[s, rng.choice(labels + ["new", 7])] for s in src]])
         else:
